@@ -110,6 +110,8 @@ def run_cmp(case):
                     classes.add("equal-up-to-case")
             elif i < j and b".".join(ls[i]).lower() == b".".join(ls[j]).lower():
                 classes.add("dot-twins-unequal")
+            elif i < j and len(ls[i]) == len(ls[j]) and all(len(x) == len(y) and all(a == b or abs(a - b) == 0x20 for a, b in zip(x, y)) for x, y in zip(ls[i], ls[j])):
+                classes.add("case-lookalike-unequal")
             wrel, wn = _relation(ls[i], ls[j])
             if rel.name != wrel or nlabels != wn:
                 raise Violation(
@@ -209,8 +211,16 @@ def cmp_cases(draw):
             pass
         rel = draw(st.integers(0, 5)) == 0
         names.append(labs[:-1] if rel else labs)
-    k = draw(st.integers(0, 5))
-    if k == 5:
+    k = draw(st.integers(0, 6))
+    if k == 6:
+        # octets that look like a case pair but are not one: only A-Z / a-z fold (RFC 4343);
+        # 0x40/0x60, 0x5B-0x5E/0x7B-0x7E and the Latin-1 letters 0xC0-0xDE/0xE0-0xFE do not
+        up = draw(st.sampled_from([0x40, 0x5B, 0x5C, 0x5D, 0x5E, 0xC0, 0xC1, 0xD6, 0xD8, 0xDE, 0x41, 0x5A]))
+        base = names[0] if names[0] and names[0][0] else [b"x", b""]
+        pre = draw(st.binary(max_size=3))
+        names[0] = [pre + bytes([up])] + list(base[1:])
+        names[1] = [pre + bytes([up + 0x20])] + list(base[1:])
+    elif k == 5:
         # "dot twins": the same octet string cut into the same number of labels at different places,
         # a literal '.' standing where the other name has a label boundary (also relative vs absolute)
         parts_ = [draw(st.sampled_from([b"a", b"b", b"A", b"x", b"ab", b"c"])) for _ in range(draw(st.integers(3, 5)))]
@@ -396,7 +406,7 @@ def parts(tier):
     return [
         Part("cmp", run_cmp, strategy=cmp_cases(), n={"quick": 12000, "thorough": 400000},
              require={"equal-up-to-case": 300, "rel:SUBDOMAIN": 300, "rel:COMMONANCESTOR": 300, "rel:NONE": 100,
-                      "under-origin": 300, "under-origin-case-variant": 20, "namedict-match": 100, "dot-twins-unequal": 300, "under-relative-origin": 100}),
+                      "under-origin": 300, "under-origin-case-variant": 20, "namedict-match": 100, "dot-twins-unequal": 300, "case-lookalike-unequal": 300, "under-relative-origin": 100}),
         Part("succ", run_succ, strategy=succ_cases(), n={"quick": 12000, "thorough": 400000},
              require={"succ-modified-label": 100, "pred-modified-label": 100, "succ-wraps": 5, "pred-of-origin": 50}),
         Part("succ-table", run_succ, cases=succ_table, shards={"quick": 8, "thorough": 8}),
